@@ -1,11 +1,145 @@
-(* C05 — BAM record encode/decode are inverse; lazy field views agree with eager decode. *)
-From Coq Require Import List NArith ZArith.
-From NV Require Import Index.Bins Bam.Record Bam.Encode Bam.Decode.
+(* C05 — BAM record encode/decode are inverse; lazy field views agree with eager decode.
+   Property theorems only.  Models: NV.Bam.Encode (record/codec/encoder*.rs + io/writer.rs),
+   NV.Bam.Decode (io/reader/record.rs, record/codec/decoder*.rs, slices of record_ref.rs),
+   bin = NV.Index.Bins.reg2bin 14 5 (shared with C17). *)
+From Coq Require Import List NArith ZArith Bool Lia ZifyBool ZifyNat ZifyN.
+From NV Require Import Index.Bins Bam.Record Bam.Encode Bam.Decode Bam.CodecProofs.
 Import ListNotations.
 Open Scope N_scope.
 
+(* The full statement: every record the writer accepts is read back equal up to [norm]
+   (bases case-folded / non-IUPAC -> N, a user CG field dropped). *)
+Definition c05_decode_encode_full_statement : Prop :=
+  forall nref r block, wf r -> NoDup (map fst (r_data r)) ->
+    encode nref r = Ok block -> decode block = Ok (norm r).
+
+(* Proved part: records without auxiliary fields and with at most 65535 CIGAR operations
+   (name, flags, ids, positions, MAPQ, bin, CIGAR, template length, bases, qualities,
+   block_size framing and the reader's layout validation).  The auxiliary data codec and the
+   CG overflow convention are covered by the model/implementation comparison only. *)
+Theorem c05_decode_encode_partial :
+  forall nref r block,
+    wf r -> r_data r = [] -> lenN (r_cigar r) <= 65535 ->
+    encode nref r = Ok block -> decode block = Ok (norm r).
+Proof. exact decode_encode_nodata. Qed.
+Print Assumptions c05_decode_encode_partial.
+
+(* Lengths, counts and coordinates that do not fit are errors, never wrapped; accepted ones are
+   stored exactly. *)
+Theorem c05_reject_not_truncate :
+  (forall s, 254 < lenN s -> enc_name_len (Some s) = Err InvalidInput) /\
+  (forall p, i32_max < p - 1 -> enc_pos (Some p) = Err InvalidInput) /\
+  (forall nref id, nref <= id \/ i32_max < id -> enc_rid nref (Some id) = Err InvalidInput) /\
+  (forall k l, max_op_len < l -> enc_op (k, l) = Err InvalidInput) /\
+  (forall rl s, s <> [] -> 0 < rl -> lenN s <> rl -> enc_seq rl s = Err InvalidInput) /\
+  (forall sq ql, ql <> [] -> lenN ql <> lenN sq -> enc_qual sq ql = Err InvalidInput) /\
+  (forall sq ql, lenN ql = lenN sq -> (exists x, In x ql /\ 93 < x) -> enc_qual sq ql = Err InvalidInput) /\
+  (forall p a, 1 <= p -> enc_pos (Some p) = Ok a -> rdW 4 a = Some (p - 1, [])) /\
+  (forall k l a, k <= 8 -> enc_op (k, l) = Ok a ->
+     exists n, rdW 4 a = Some (n, []) /\ n / 16 = l /\ n mod 16 = k).
+Proof.
+  repeat split.
+  - exact enc_name_len_rejects.
+  - exact enc_pos_rejects.
+  - exact enc_rid_rejects.
+  - exact enc_op_rejects.
+  - exact enc_seq_rejects.
+  - exact enc_qual_rejects_length.
+  - exact enc_qual_rejects_score.
+  - exact enc_pos_exact.
+  - exact enc_op_exact.
+Qed.
+Print Assumptions c05_reject_not_truncate.
+
+(* The bin field (bytes 10..12 of an accepted record) is the spec's reg2bin of the span
+   [start, end] (1-based inclusive, end from the CIGAR reference span) for coordinates <= 2^29:
+   the truncating `as u16` cast of encoder/bin.rs never bites there. *)
+Theorem c05_bin :
+  forall nref r body s,
+    encode_body nref r = Ok body -> r_pos r = Some s -> 1 <= s ->
+    alignment_end s (r_cigar r) <= 2 ^ 29 ->
+    rdW 2 (skipn 10 body) = Some (reg2bin 14 5 s (alignment_end s (r_cigar r)), skipn 12 body).
+Proof. exact encode_body_bin. Qed.
+Print Assumptions c05_bin.
+
+Theorem c05_cigar_roundtrip :
+  forall c bs fuel, Forall op_ok c -> enc_cigar c = Ok bs -> (length c <= fuel)%nat ->
+    dec_ops fuel (lenN c) bs = Ok c.
+Proof. exact cigar_roundtrip. Qed.
+Print Assumptions c05_cigar_roundtrip.
+
+(* 4-bit packing, odd and even lengths, every byte value *)
+Theorem c05_seq_roundtrip :
+  forall s, firstnN (lenN s) (unpack_bases (pack_bases s)) = map norm_base s.
+Proof. exact seq_roundtrip. Qed.
+Print Assumptions c05_seq_roundtrip.
+
+Theorem c05_qual_roundtrip :
+  forall sq ql q, enc_qual sq ql = Ok q ->
+    lenN q = lenN sq /\ (if lenN sq =? 0 then [] else dec_qual q) = ql.
+Proof. exact qual_roundtrip. Qed.
+Print Assumptions c05_qual_roundtrip.
+
+Theorem c05_name_roundtrip : forall o bs, enc_name o = Ok bs -> dec_name bs = Ok o.
+Proof. exact name_roundtrip. Qed.
+Print Assumptions c05_name_roundtrip.
+
+(* norm_base is exactly: upper-case, then anything outside =ACMGRSVTWYHKDBN becomes N
+   (finite domain, by computation over all 256 byte values) *)
+Definition upper (b : N) : N := if (97 <=? b) && (b <=? 122) then b - 32 else b.
+Theorem c05_base_table :
+  forall b, b < 256 ->
+    norm_base b = (if existsb (N.eqb (upper b)) BASES then upper b else 78).
+Proof.
+  assert (H : forallb (fun b => norm_base b =? (if existsb (N.eqb (upper b)) BASES then upper b else 78))
+                      (map N.of_nat (seq 0 256)) = true) by (vm_compute; reflexivity).
+  intros b Hb. rewrite forallb_forall in H. apply N.eqb_eq. apply H.
+  apply in_map_iff. exists (N.to_nat b). split; [apply N2Nat.id|]. apply in_seq.
+  lia.
+Qed.
+Print Assumptions c05_base_table.
+
+(* lazy = eager: full statement (not proved in this revision; the slice arithmetic is modelled
+   in NV.Bam.Decode (the lz_ definitions), the agreement is checked on the implementation by the harness) *)
+Definition c05_lazy_eq_eager_full_statement : Prop :=
+  forall body r, validate body = Ok tt -> decode_body body = Ok r ->
+    lz_name body = r_name r /\ lz_flags body = r_flags r /\ lz_mapq body = r_mapq r /\
+    lz_rid body = Ok (r_rid r) /\ lz_pos body = Ok (r_pos r) /\
+    lz_mrid body = Ok (r_mrid r) /\ lz_mpos body = Ok (r_mpos r) /\ lz_tlen body = r_tlen r /\
+    lz_seq body = r_seq r /\ lz_qual body = r_qual r.
+
+(* non-vacuity: a mapped record with an odd-length lower-case/non-IUPAC sequence *)
+Definition ex_rec : record :=
+  mkRecord (Some [114; 49]) 99 (Some 1) (Some 16380) (Some 60) [(4, 1); (0, 3); (2, 20); (1, 1)]
+           (Some 0) (Some 2147483648) (-150)%Z [97; 67; 120; 84; 46] [0; 93; 40; 1; 2] [].
+
+Example c05_example_roundtrip :
+  wf ex_rec /\ exists block, encode 2 ex_rec = Ok block /\ decode block = Ok (norm ex_rec) /\
+  r_seq (norm ex_rec) = [65; 67; 78; 84; 78].
+Proof.
+  split.
+  - unfold wf, ex_rec. cbn [r_flags r_mapq r_pos r_mpos r_tlen r_cigar].
+    split; [lia|]. split; [intros q E; injection E as E; lia|].
+    split; [intros p E; injection E as E; lia|]. split; [intros p E; injection E as E; lia|].
+    split; [lia|]. repeat constructor; unfold op_ok; cbn [fst]; lia.
+  - eexists. split; [vm_compute; reflexivity|]. split; vm_compute; reflexivity.
+Qed.
+
+Example c05_example_lazy :
+  exists block body, encode 2 ex_rec = Ok block /\ body = skipn 4 block /\
+    lz_name body = r_name ex_rec /\ lz_flags body = 99 /\ lz_seq body = r_seq (norm ex_rec) /\
+    lz_qual body = r_qual ex_rec /\ lz_pos body = Ok (Some 16380) /\ lz_tlen body = (-150)%Z.
+Proof. eexists. eexists. split; [vm_compute; reflexivity|]. split; [reflexivity|]. vm_compute. repeat split; reflexivity. Qed.
+
+(* the default record of encoder.rs::test_encode_with_default_fields *)
 Example c05_example_default :
   encode 0 (mkRecord None 4 None None None [] None None 0%Z [] [] []) =
   Ok [34;0;0;0; 255;255;255;255; 255;255;255;255; 2; 255; 72;18; 0;0; 4;0; 0;0;0;0;
       255;255;255;255; 255;255;255;255; 0;0;0;0; 42;0].
 Proof. vm_compute. reflexivity. Qed.
+
+(* rejects are reachable *)
+Example c05_example_reject :
+  encode 1 (mkRecord None 0 None (Some 2147483650) None [] None None 0%Z [] [] []) = Err InvalidInput /\
+  encode 1 (mkRecord None 0 None None None [(2, 268435456)] None None 0%Z [] [] []) = Err InvalidInput.
+Proof. split; vm_compute; reflexivity. Qed.
